@@ -52,6 +52,9 @@ CHECKS['C13'] = comp('CrashTrace.tla', 'A forked victim process is SIGKILLed at 
     'process must acquire within 2 s and the survivors must keep excluding each other; TLC validates every history (C13_StuckAfterCrash, C13_PromptAfterCrash, C13_SurvivorsExclusive).',
     'crash-point enumeration with real processes and the real flock(2); histories validated by TLC against CrashTrace.tla')
 CHECKS['C13']['category'] = 'fault_enumeration'
+CHECKS['C16'] = comp('BridgeContract.tla', 'Every source length 0..6 with a failure at every position for each source kind, plus thousands of random sources with producer '
+    'step durations and consumer delays under seeded line-level schedules of the producer thread against the consuming loop (controlled executor, queue and futures); TLC validates '
+    'C16_Sequence, C16_ErrorAfterN, C16_ForeignException, C16_LoopNotBlocked (ticker beats in virtual time) and C16_NoThreadLeft.')
 PENDING_REASON = 'check not built yet in this session (planned: see DESIGN.md §5); not a claim that the technique cannot apply'
 PENDING = {('C%02d' % i): PENDING_REASON for i in range(1, 21)}
 ENGINES = [
